@@ -74,6 +74,8 @@ def _modular(rng, ast, bp):
     if sg.size(ast) < 4:
         return ('out = ' + sg.to_text(ast, sg.Spelling(rng), bp) + ';'), None
     defs, top = sg.modularize(rng, ast, max_subs=3, prefer_stateful=rng.random() < 0.5)
+    if rng.random() < 0.3:
+        defs, top = sg.add_alias(rng, defs, top, 'q1')       # a bare number or variable with a name of its own (also used as -(q1))
     sp = sg.Spelling(rng)
     subs = ['%s = %s;' % (nm, sg.to_text(a, sp, bp)) for nm, a in defs]
     text = 'out = ' + sg.to_text(top, sp, bp) + ';'
